@@ -64,13 +64,14 @@ pub trait System: Sized {
     type SystemData: DynamicSystemData;
     spec fn spec_ident(&self) -> Ident;
     spec fn spec_time(&self) -> RunningTime;
-    spec fn spec_runs(&self) -> nat;
+    // `self` is `pre` after exactly k calls of `run` (an abstract relation: a stateless system may define it as `true`)
+    spec fn spec_ran(&self, pre: &Self, k: nat) -> bool;
     fn run(&mut self, data: Self::SystemData)
         ensures final(self).spec_time() == old(self).spec_time(),
-//@if once|tl
-            final(self).spec_runs() == old(self).spec_runs() + 1,
+//@if once|tl|tree
+            final(self).spec_ran(old(self), 1),
 //@endif
-//@if hooks
+//@if hooks|tree
             final(self).spec_ident() == old(self).spec_ident(),
 //@endif
     ;
@@ -78,13 +79,13 @@ pub trait System: Sized {
     fn accessor(&self) -> (r: AccessorCow<'_, <Self::SystemData as DynamicSystemData>::Accessor>)
         ensures r.spec_r() == self.spec_ident().reads, r.spec_w() == self.spec_ident().writes;
     fn setup(&mut self, world: &mut World)
-//@if hooks
+//@if hooks|tree
         ensures final(world).setup_log() == old(world).setup_log() + old(self).spec_ident().setup, final(world).dispose_log() == old(world).dispose_log(),
-            final(self).spec_ident() == old(self).spec_ident(), final(self).spec_runs() == old(self).spec_runs()
+            final(self).spec_ident() == old(self).spec_ident()
 //@endif
     ;
     fn dispose(self, world: &mut World)
-//@if hooks
+//@if hooks|tree
         ensures final(world).dispose_log() == old(world).dispose_log() + self.spec_ident().dispose, final(world).setup_log() == old(world).setup_log()
 //@endif
     ;
@@ -136,7 +137,7 @@ impl SysBox {
 // Box::new(system) coerced to the trait object
 #[verifier::external_body]
 pub fn vx_boxed_sys<T: System>(system: T) -> (b: SysBox)
-    ensures b.ident() == system.spec_ident(), b.runs() == system.spec_runs()
+    ensures b.ident() == system.spec_ident()
 { unimplemented!() }
 #[verifier::external_body]
 pub fn vx_boxed_rn<T: RunNow>(system: T) -> (b: SysBox)
